@@ -1,5 +1,5 @@
 """Property -> rules.  Each entry: run(prog, tier) -> (obligations, floors, meta)."""
-from .rules import bounds, arith, index, numctor, cmp, jsonw, memo, strict, lookup, tls, imports, hashord, capi, tables, ops, registry
+from .rules import bounds, arith, index, numctor, cmp, jsonw, memo, strict, lookup, tls, imports, hashord, capi, tables, ops, registry, printf, recur
 
 COMMON_TRUST = [
     "rustc nightly HIR/MIR construction, trait resolution and const evaluation",
@@ -70,6 +70,8 @@ def c04(prog, tier):
     obs, floors, an = merge(
         arith.run(prog, crate_is(*EVAL_CRATES), floor=40),
         index.run(prog, crate_is(*EVAL_CRATES), floor=25),
+        recur.run_frame(prog, crate_is(*EVAL_CRATES)),
+        only(recur.run(prog), ("in_frame:guards", "in_description_frame:guards", "ensure_sufficient_stack:guards")),
         # "after any error the same thread evaluates further programs normally"
         only(tls.run(prog), ("check_depth", "run_assertions", "<StackDepthGuard", "StateEnterGuard", "jrsonnet_evaluator::in_")),
         only(imports.run(prog), ("import_resolved:reset", "import_resolved:cycle", "import_resolved:borrow")),
@@ -95,17 +97,22 @@ def c04(prog, tier):
 
 def c12(prog, tier):
     pred = file_is("jrsonnet-evaluator/src/stdlib/format.rs")
-    obs, floors, an = merge(arith.run(prog, pred, floor=8), index.run(prog, pred, floor=12))
+    obs, floors, an = merge(arith.run(prog, pred, floor=8), index.run(prog, pred, floor=12), printf.run(prog))
     meta = {
         "level": "other",
         "explanation": (
+            "R-PRINTF (HIR tables): the 15 conversion characters map to (kind, caps) as Python %-formatting defines and anything else is "
+            "UnrecognizedConversionType; the 5 flags set the right field; %g switches form exactly at exponent < -4 || exponent >= precision; "
+            "the sign column is reserved for neg || blank || sign; format_arr consumes values for width, precision, value in that order, "
+            "reports NotEnoughValues at each point, %% consumes nothing, and every successful return follows the surplus-values test; "
+            "std.format, % and std.mod reach the same formatter. "
             "Static (MIR) decision of the crash clause of C12 for the format-code parser and renderers (format.rs): every "
             "u16/usize arithmetic trap and every byte index into the format string is dominated by a guard (so truncated "
             "codes surface as TruncatedFormatCode, widths that do not fit as an error). NOT decided: the rendered text."),
         "rule": ARITH_TEXT,
-        "rules": ["R-ARITH", "R-INDEX"],
+        "rules": ["R-ARITH", "R-INDEX", "R-PRINTF"],
         "analysed": an,
-        "decided": "no arithmetic/index trap in format.rs",
+        "decided": "no arithmetic/index trap in format.rs; conversion/flag tables; value accounting",
         "not_decided": "rendered text equals Python-style formatting",
         "trusted_base": COMMON_TRUST,
         "assumptions": [],
@@ -114,7 +121,8 @@ def c12(prog, tier):
 
 
 def c20(prog, tier):
-    obs, floors, an = merge(arith.run(prog, crate_is(*FMT_CRATES), floor=12), index.run(prog, crate_is(*FMT_CRATES), floor=4))
+    obs, floors, an = merge(arith.run(prog, crate_is(*FMT_CRATES), floor=12), index.run(prog, crate_is(*FMT_CRATES), floor=4),
+                            recur.run_frame(prog, crate_is("jrsonnet_rowan_parser", "jrsonnet_formatter", "jrsonnet_fmt")))
     meta = {
         "level": "other",
         "explanation": (
